@@ -1,8 +1,159 @@
-import ErdosVerif.Driver.Util
-namespace ErdosVerif.Driver.MipIlp
-open Lean ErdosVerif.Driver
+/-
+Driver for suite "mip_ilp": one case = one ILPScheduler invocation.
 
-/-- Suite handler: one JSON case in, one JSON reply out (stub until the suite is built). -/
-def handle (_j : Json) : Json := Json.mkObj [("protocol_error", Json.str "suite-not-built")]
+in : {"suite":"mip_ilp","inst":{…},"sigma":{"<label>":int,…}|null,"opt":bool}
+out: {"vars":[…],"constrs":[…],"obj":{…},            -- `gen inst`, rendered with the code's names
+      "sat":bool,"violated":[names],"decode":[…],"objval":int,   -- when sigma is given
+      "decode_fail":[…], "opt":…}                         -- brute-force optimum when "opt" is true
+
+Variable labels are `name#k` (k-th variable of that name in creation order), the
+same labelling the harness applies to the captured Gurobi model.
+-/
+import ErdosVerif.Driver.Util
+import ErdosVerif.Model.Ilp
+import ErdosVerif.Model.IlpSpec
+namespace ErdosVerif.Driver.MipIlp
+open Lean ErdosVerif.Driver ErdosVerif.Mip ErdosVerif.Ilp
+
+def parsePairs (j : Json) (k : String) : Except String (List (String × Nat)) := do
+  let l ← fldArr j k
+  mapM' (fun e => do
+    let a ← e.getArr?
+    match a.toList with
+    | [n, q] => return ((← n.getStr?), (← q.getNat?))
+    | _ => throw "bad-pair") l
+
+def parseStrat (j : Json) : Except String Strat := do
+  return { batch := ← fldNat j "batch", runtime := ← fldNat j "runtime", req := ← parsePairs j "req" }
+
+def parseState (s : String) : TState :=
+  match s with
+  | "VIRTUAL" => .virtual
+  | "RELEASED" => .released
+  | "SCHEDULED" => .scheduled
+  | "RUNNING" => .running
+  | _ => .other
+
+def parseTask (j : Json) : Except String TaskI := do
+  let strats ← mapM' parseStrat (← fldArr j "strats")
+  return { uniq := ← fldStr j "uniq", name := ← fldStr j "name", ts := ← fldInt j "ts",
+           graph := ← fldStr j "graph", state := parseState (← fldStr j "state"),
+           release := ← fldInt j "release", deadline := ← fldInt j "deadline", strats := strats,
+           prevW := ← fldNat j "prevW", prevS := ← fldNat j "prevS" }
+
+def parseWorker (j : Json) : Except String WorkerI := do
+  return { name := ← fldStr j "name", pool := ← fldStr j "pool", res := ← parsePairs j "res" }
+
+def parseNode (j : Json) : Except String Node := do
+  return { uniq := ← fldStr j "uniq", name := ← fldStr j "name", ts := ← fldInt j "ts",
+           graph := ← fldStr j "graph" }
+
+def parseEdge (j : Json) : Except String (String × String) := do
+  let a ← j.getArr?
+  match a.toList with
+  | [p, c] => return ((← p.getStr?), (← c.getStr?))
+  | _ => throw "bad-edge"
+
+def parseInst (j : Json) : Except String Inst := do
+  let allowed ← mapM' (fun (e : Json) => e.getStr?) (← fldArr j "allowed0")
+  return { now := ← fldInt j "now",
+           workers := ← mapM' parseWorker (← fldArr j "workers"),
+           tasks := ← mapM' parseTask (← fldArr j "tasks"),
+           nOffered := ← fldNat j "nOffered",
+           nodes := ← mapM' parseNode (← fldArr j "nodes"),
+           edges := ← mapM' parseEdge (← fldArr j "edges"),
+           enforceDeadlines := ← fldBool j "enforce_deadlines",
+           retract := ← fldBool j "retract",
+           releaseTaskgraphs := ← fldBool j "release_taskgraphs",
+           goalSlack := ← fldBool j "goal_slack",
+           allowed0 := allowed }
+
+/-- `name#k` labels in declaration order. -/
+def labels (I : Inst) : List (Var × String) :=
+  let rec go (ds : List (VarDecl Var)) (seen : List String) (acc : List (Var × String)) : List (Var × String) :=
+    match ds with
+    | [] => acc.reverse
+    | d :: ds =>
+      let n := I.varName d.v
+      let k := (seen.filter (· == n)).length
+      go ds (n :: seen) ((d.v, s!"{n}#{k}") :: acc)
+  go I.vars [] []
+
+def labelOf (I : Inst) (ls : List (Var × String)) (v : Var) : String :=
+  match ls.find? (fun p => p.1 == v) with
+  | some p => p.2
+  | none => s!"UNDECLARED:{I.varName v}"
+
+def jLin (lab : Var → String) (e : LinExpr Var) : Json :=
+  Json.mkObj [("t", jList (fun (p : Int × Var) => Json.arr #[jInt p.1, Json.str (lab p.2)]) e.terms),
+              ("c", jInt e.const)]
+
+def jQuad (lab : Var → String) (q : QuadExpr Var) : Json :=
+  Json.mkObj [("q", jList (fun (p : Int × Var × Var) =>
+                  Json.arr #[jInt p.1, Json.str (lab p.2.1), Json.str (lab p.2.2)]) q.quad),
+              ("l", jLin lab q.lin)]
+
+def jSense : Sense → Json
+  | .le => Json.str "<"
+  | .ge => Json.str ">"
+  | .eq => Json.str "="
+
+def jConstr (lab : Var → String) : Constr Var → Json
+  | .lin n e s rhs => Json.mkObj [("kind", "lin"), ("name", n), ("e", jQuad lab (QuadExpr.ofLin e)), ("sense", jSense s), ("rhs", jInt rhs)]
+  | .quad n e s rhs => Json.mkObj [("kind", "lin"), ("name", n), ("e", jQuad lab e), ("sense", jSense s), ("rhs", jInt rhs)]
+  | .ind n b val e s rhs => Json.mkObj [("kind", "ind"), ("name", n), ("b", Json.str (lab b)), ("val", jInt val),
+      ("e", jQuad lab (QuadExpr.ofLin e)), ("sense", jSense s), ("rhs", jInt rhs)]
+  | .and n r args => Json.mkObj [("kind", "and"), ("name", n), ("r", Json.str (lab r)), ("args", jList (fun a => Json.str (lab a)) args)]
+
+def jDecl (lab : Var → String) (d : VarDecl Var) : Json :=
+  Json.mkObj [("name", Json.str (lab d.v)),
+              ("vtype", Json.str (match d.vtype with | .bin => "B" | .int => "I")),
+              ("lb", jOptInt d.lb), ("ub", jOptInt d.ub)]
+
+def jDecision (I : Inst) (d : Decision) : Json :=
+  match d.placed with
+  | none => Json.mkObj [("task", Json.str (I.tname d.task)), ("placed", Json.bool false)]
+  | some (w, s, t) => Json.mkObj [("task", Json.str (I.tname d.task)), ("placed", Json.bool true),
+      ("worker", jNat w), ("pool", Json.str (I.worker w).pool), ("strategy", jNat s), ("time", jInt t)]
+
+def sigmaOf (ls : List (Var × String)) (j : Json) : Var → Int := fun v =>
+  match ls.find? (fun p => p.1 == v) with
+  | none => 0
+  | some p => match j.getObjVal? p.2 >>= Json.getInt? with
+    | .ok n => n
+    | .error _ => 0
+
+def handleE (j : Json) : Except String Json := do
+  let I ← parseInst (← fld j "inst")
+  if let some cls := I.crash then return errJ cls
+  let ls := labels I
+  let lab := labelOf I ls
+  let m := gen I
+  let wantModel := (fldBool j "model").toOption.getD true
+  let base : List (String × Json) :=
+    if wantModel then
+      [("vars", jList (jDecl lab) m.vars), ("constrs", jList (jConstr lab) m.constrs),
+       ("obj", jQuad lab m.obj)]
+    else []
+  let base := base ++ [("decode_fail", jList (jDecision I) (decodeFail I)), ("wf", Json.bool I.wf)]
+  let withSigma : List (String × Json) :=
+    match fldOpt j "sigma" with
+    | none => []
+    | some sj =>
+      let σ := sigmaOf ls sj
+      [("sat", Json.bool (decide (sat σ m))),
+       ("violated", jList Json.str ((m.vars.filter (fun d => !decide (d.ok σ))).map (fun d => "domain:" ++ lab d.v) ++ violated σ m)),
+       ("decode", jList (jDecision I) (decode I σ)),
+       ("objval", jInt (objective σ m)),
+       ("plan_valid", Json.bool (IlpSpec.validPlanB I (IlpSpec.planOf I σ))),
+       ("plan_goodput", jNat (IlpSpec.goodput I (IlpSpec.planOf I σ)))]
+  let withOpt : List (String × Json) :=
+    match fldOpt j "opt" with
+    | some (Json.bool true) =>
+      [("opt", jOptNat (IlpSpec.optGoodput I)), ("opt_pw", jOptNat (IlpSpec.optGoodputPW I))]
+    | _ => []
+  return Json.mkObj (base ++ withSigma ++ withOpt)
+
+def handle (j : Json) : Json := guardE (handleE j)
 
 end ErdosVerif.Driver.MipIlp
